@@ -201,12 +201,17 @@ fn pair_case(st: &mut St, acc: &mut Acc, r1: usize, r2: usize, n1: &(String, Str
 fn inverse_case(st: &mut St, acc: &mut Acc, s: &str) {
     acc.evals += 1;
     let lit = string_literal(s);
-    let text = format!("(let ((y (string->symbol {}))) (list (symbol? y) (string=? (symbol->string y) {}) (eq? y (string->symbol (symbol->string y))) (eq? y (string->symbol {}))))", lit, lit, lit);
+    // the last two items: a string obtained from symbol->string is the caller's own - filling it with another
+    // character changes neither the symbol's name nor its identity
+    let text = format!(
+        "(let ((y (string->symbol {}))) (list (symbol? y) (string=? (symbol->string y) {}) (eq? y (string->symbol (symbol->string y))) (eq? y (string->symbol {})) (let ((n (symbol->string y))) (string-fill! n #\\~) (string=? (symbol->string y) {})) (eq? y (string->symbol {}))))",
+        lit, lit, lit, lit, lit
+    );
     beat(&text);
     let im = vm(st);
     let o = im.eval_text(&text);
     let got = o.show();
-    if got == "(#t #t #t #t)" {
+    if got == "(#t #t #t #t #t #t)" {
         acc.nontrivial += 1;
         acc.outcome("inverse-holds");
     } else {
@@ -216,7 +221,7 @@ fn inverse_case(st: &mut St, acc: &mut Acc, s: &str) {
             key: format!("inverse:{:?}", s),
             class: Some(cls.into()),
             observed: if got.starts_with("panic") { "panic".into() } else if got.starts_with("error") { "error".into() } else { "inverse-law-fails".into() },
-            detail: json!({"session": [text], "expected": "(#t #t #t #t)  ; symbol?, name preserved, round trip eq?, re-interning eq?", "observed": got}),
+            detail: json!({"session": [text], "expected": "(#t #t #t #t #t #t)  ; symbol?, name preserved, round trip eq?, re-interning eq?, name unaffected by mutating a symbol->string result, still interned", "observed": got}),
         });
         if got.starts_with("panic") {
             st.im = None;
@@ -287,6 +292,49 @@ pub fn run(ctx: &Ctx) -> i32 {
         Acc::merge,
         acc_zero,
     );
+    // mass interning: a quoted list of n fresh symbols, n around and beyond the number of free cells of a fresh VM
+    // (so that the heap grows while symbols are being interned); every element must be the interned symbol of its name
+    let sizes: Vec<usize> = vec![100, 7000, 7600, 7639, 7640, 7641, 7700, 8200, 12000, 20000];
+    let a_mass = par_fold(
+        sizes.len() as u64,
+        1,
+        || (),
+        |_, acc, i| {
+            let n = sizes[i as usize];
+            let body = std::thread::Builder::new().stack_size(1 << 30).spawn(move || {
+                let mut im = Impl::new();
+                let names: Vec<String> = (0..n).map(|k| format!("ms{}x{}", n, k)).collect();
+                let define = format!("(define big '({}))", names.join(" "));
+                let check = "(let lp ((l big) (bad 0)) (if (null? l) bad (lp (cdr l) (if (and (symbol? (car l)) (eq? (car l) (string->symbol (symbol->string (car l))))) bad (+ bad 1)))))";
+                let probe = format!("(list (eq? (car big) 'ms{}x0) (eq? (list-ref big {}) 'ms{}x{}) (length big))", n, n - 1, n, n - 1);
+                let o1 = im.eval_text(&define).show();
+                let o2 = im.eval_text(check).show();
+                let o3 = im.eval_text(&probe).show();
+                let vm = &mut im.vm;
+                let audit = std::panic::catch_unwind(std::panic::AssertUnwindSafe(|| vm.verif_collect_now())).is_ok();
+                let o4 = im.eval_text(check).show();
+                (o1, o2, o3, audit, o4)
+            });
+            acc.evals += 1;
+            beat(&format!("mass interning of {} symbols", n));
+            let (o1, o2, o3, audit, o4) = body.expect("spawn").join().unwrap_or_else(|_| ("panic".into(), String::new(), String::new(), false, String::new()));
+            let want3 = format!("(#t #t {})", n);
+            if o2 == "0" && o3 == want3 && audit && o4 == "0" {
+                acc.nontrivial += 1;
+                acc.outcome("mass-interning-ok");
+            } else {
+                acc.violation(Violation {
+                    key: format!("mass-interning:{}", n),
+                    class: Some("mass-interning".into()),
+                    observed: if !audit { "heap-invariant".into() } else { "wrong-identity".into() },
+                    detail: json!({"session": [format!("(define big '(ms{}x0 ... ms{}x{}))", n, n, n - 1)], "define": o1, "symbols_not_interned": o2, "ends_and_length": o3, "expected_ends_and_length": want3,
+                        "heap_audit_after_a_collection_ok": audit, "symbols_not_interned_after_collection": o4}),
+                });
+            }
+        },
+        Acc::merge,
+        acc_zero,
+    );
     // inverses over strings
     let trouble = trouble_strings();
     let nt = trouble.len() as u64;
@@ -351,14 +399,14 @@ pub fn run(ctx: &Ctx) -> i32 {
         acc_zero,
     );
     let mut acc = Acc::new();
-    for a in [a1, a2, a3, a4] {
+    for a in [a1, a_mass, a2, a3, a4] {
         acc = Acc::merge(acc, a);
     }
     rep.states = Some(acc.evals);
     rep.transitions = Some(acc.evals);
     rep.traces_validated = Some(acc.nontrivial);
     rep.rule = format!(
-        "Every ordered pair of the {} production routes ({:?}) x {} reader-spellable names (plain, peculiar, non-ASCII, and \\x..; spellings of A, 12foo, 'a b', '(') x (same name | a different name | another spelling of the same name | the different name whose characters are this name's escaped spelling) x (same evaluation | two evaluations with the first result dropped | first result kept in a global) x collection schedule between the two productions (none | one forced collection | a collection before every instruction of the second evaluation): (eq? s1 s2) must be #t exactly when the names are equal, the heap audit (symbol table bijection, I1-I4) must pass after every collection. Inverses: (symbol->string (string->symbol s)) = s, re-interning is eq?, for every one-character string (all {} scalar values), all strings of <= 3 characters over 12 trouble characters and escape-looking texts ({} strings); (string->symbol (symbol->string y)) is y for every token of <= 3 characters over a 26-character alphabet (incl. a backslash, a 2-byte and a 4-byte character) that the reader classifies as a symbol. Non-trivial = a case whose verdict matched.",
+        "Every ordered pair of the {} production routes ({:?}) x {} reader-spellable names (plain, peculiar, non-ASCII, and \\x..; spellings of A, 12foo, 'a b', '(') x (same name | a different name | another spelling of the same name | the different name whose characters are this name's escaped spelling) x (same evaluation | two evaluations with the first result dropped | first result kept in a global) x collection schedule between the two productions (none | one forced collection | a collection before every instruction of the second evaluation): (eq? s1 s2) must be #t exactly when the names are equal, the heap audit (symbol table bijection, I1-I4) must pass after every collection. Mass interning: quoted lists of 100 .. 20 000 fresh symbols (around and beyond the free cells of a fresh VM, so that the heap grows while symbols are interned): every element is the interned symbol of its name, before and after a collection. Inverses: (symbol->string (string->symbol s)) = s, re-interning is eq?, filling a string obtained from symbol->string changes neither the name nor the identity, for every one-character string (all {} scalar values), all strings of <= 3 characters over 12 trouble characters and escape-looking texts ({} strings); (string->symbol (symbol->string y)) is y for every token of <= 3 characters over a 26-character alphabet (incl. a backslash, a 2-byte and a 4-byte character) that the reader classifies as a symbol. Non-trivial = a case whose verdict matched.",
         nr, ROUTES, nn, 0x110000 - 2048, nt
     );
     rep.assumptions.push("routes that embed the name in program text use a spelling the reader accepts; names the reader cannot spell are produced through string->symbol only".into());
